@@ -159,7 +159,13 @@ def check_c19(seed, tier):
                 sels = [("HH", {"rows": slice(4, 6)}), ("HH", {"rows": slice(4, 6)})]
             trees = [t] * len(sels)
             if scenario == "pickled-copy":
-                trees = [t, pickle.loads(pickle.dumps(t))]
+                try:
+                    trees = [t, pickle.loads(pickle.dumps(t))]
+                except Exception as e:  # noqa: BLE001
+                    evals += 1
+                    viol.append({"case": {"cfg": cfg, "scenario": scenario},
+                                 "what": f"the opened tree cannot be pickled / unpickled (loads from pickled copies are part of the property): {type(e).__name__}: {e}"[:250]})
+                    continue
             want = [tr[f"imagery/{g}/data"].isel(**ix).values for tr, (g, ix) in zip(trees, sels)]
             prefix = []
             count = 0
@@ -246,7 +252,11 @@ def check_c19(seed, tier):
                 distinct.add(("process", how, n, rpc, a, b, c))
                 case = {"cfg": cfg, "scenario": f"worker process ({how})", "rpc": rpc, "parent_rows": [a, c], "worker_row": b}
                 first = da.isel(rows=slice(a, a + 1)).values                     # the parent has read before the fork
-                blob = pickle.dumps(t) if how != "fork" else None
+                try:
+                    blob = pickle.dumps(t) if how != "fork" else None
+                except Exception as e:  # noqa: BLE001
+                    viol.append({"case": case, "what": f"the opened tree cannot be pickled: {type(e).__name__}: {e}"[:250]})
+                    continue
                 r_fd, w_fd = _os.pipe()
                 pid = _os.fork()
                 if pid == 0:
